@@ -31,6 +31,8 @@ DW_ATTRS = {
 }
 
 OP_FUNCS = {
+    "combinations": dict(code="py_combinations2 {iterable} {r}", ty=List(Tup(Nom("Operation", "operation", "op_eqb"), Nom("Operation", "operation", "op_eqb"))),
+                         params=[("iterable", List(Nom("Operation", "operation", "op_eqb"))), ("r", Z)], partial=True),
     "pauli_identity_string": dict(code="pauli_identity_string (Z.to_nat {n_qubits})", ty=OP, params=[("n_qubits", Z)], partial=True),
     "pauli_z_string": dict(code="pauli_z_string_Z {qubit_index} {n_qubits}", ty=OP, params=[("qubit_index", Z), ("n_qubits", Z)], partial=True),
 }
@@ -85,8 +87,10 @@ SPEC = dict(
     link="coq/link/C15Link.v",
     imports=["From QV Require Import Jssp.DomainWall Translate.C15Aux."],
     preamble=("(* data representation of the two attributes the tail of _prepare_hamiltonian assigns (its own state record) *)\n"
-              "Record enchamstate := mkHam { hs_ham : option opexpr; hs_prepared : bool }.\n"),
-    coq_deps=["theories/Jssp/DomainWall_proofs.vo", "theories/Jssp/Encoder.vo", "theories/Jssp/Encoder_proofs.vo", "theories/Translate/C15Aux.vo"],
+              "Record enchamstate := mkHam { hs_ham : option opexpr; hs_prepared : bool }.\n"
+              "(* itertools.combinations(l, 2): the pairs (l[i], l[j]), i < j, in lexicographic order of the positions = Encoder.combs2 *)\n"
+              "Definition py_combinations2 {A} (l : list A) (r : Z) : result (list (A * A)) := if Z.eqb r 2 then Ok (QV.Jssp.Encoder.combs2 l) else Err \"ValueError\"%string.\n"),
+    coq_deps=["theories/Jssp/DomainWall_proofs.vo", "theories/Jssp/Encoder.vo", "theories/Jssp/Encoder_proofs.vo", "theories/Jssp/Decoded_proofs.vo", "theories/Jssp/Grouping_proofs.vo", "theories/Translate/C15Aux.vo"],
     reserved=["job", "operation", "instance", "schedule", "value", "values", "enc", "var_nq", "v", "st"],
     attrs={**DW_ATTRS, **INSTANCE_ATTRS},
     consts={"SparsePauliOp": ("tt", OPCLASS)},
@@ -169,5 +173,10 @@ SPEC = dict(
         dict(py="JSSPDomainWallHamiltonianEncoder._prepare_hamiltonian", source=ENC_SRC, gen="Enc_ham_precedence_terms",
              fragment=dict(path=[], count=3, outputs=["precedence_terms"], temps=["job", "i"]),
              params=[], extra_params=ENC_EXTRA, self_attrs=ENC_SELF, state=ENC_STATE, returns=List(OP), locals={"precedence_terms": List(OP)}),
+        dict(py="JSSPDomainWallHamiltonianEncoder._prepare_hamiltonian", source=ENC_SRC, gen="Enc_ham_overlap_terms",
+             fragment=dict(path=[], after="AnnAssign=overlap_terms", count=1, outputs=["overlap_terms"],
+                           temps=["_", "operations", "operation_1", "operation_2"]),
+             params=[("overlap_terms", "overlap_terms", List(OP))],
+             extra_params=ENC_EXTRA, self_attrs=ENC_SELF, state=ENC_STATE, returns=List(OP)),
     ],
 )
